@@ -300,26 +300,32 @@ def eval_replace(state, arg):
             # ---- oracle: extraction commutes with replacement, stretch by stretch.
             # expected: apply the pairs in order to every run string that is pure literal
             # text; domain clause: the needle must not also occur across a stretch boundary
-            def esc(s):
-                return s.replace("&", "&amp;").replace("<", "&lt;").replace(">", "&gt;") if html else s
+            # html on: tags may come and go with emptied runs; the property is about the text,
+            # so both sides are compared after stripping formatting tags and unescaping
+            import oracles
+
+            def plain(p):
+                return oracles.strip_html(p) if html else p
 
             def apply(s):
                 for old, new in pairs:
-                    s = s.replace(esc(old), esc(new))
+                    s = s.replace(old, new)
                 return s
             in_domain = True
-            bp = ["".join(p) for t in b_runs for r in t for c in r for p in c]
-            ap = ["".join(p) for t in a_runs for r in t for c in r for p in c]
+            bp = [plain("".join(p)) for t in b_runs for r in t for c in r for p in c]
+            ap = [plain("".join(p)) for t in a_runs for r in t for c in r for p in c]
             joined_st = "\x00".join(all_st)
             cur = joined_st
+            cur_pars = list(bp)
             for old, new in pairs:
-                if any(ch in "\r\x0b\x0c\x1c\x1d\x1e\x85  " for ch in new):
+                if any(ch in "\r\x0b\x0c\x1c\x1d\x1e\x85\u2028\u2029" for ch in new):
                     in_domain = False
                 n_stretch = cur.count(old)
-                n_text = sum(p.count(esc(old)) for p in bp)
+                n_text = sum(p.count(old) for p in cur_pars)
                 if n_text != n_stretch:
                     in_domain = False  # the needle also occurs across a boundary / in a marker
                 cur = cur.replace(old, new)
+                cur_pars = [p.replace(old, new) for p in cur_pars]
             if not in_domain:
                 res["features"].append("outside_domain")
             else:
@@ -380,7 +386,9 @@ def summarise(ctx, results, rule, corr_label, nontrivial):
                                    "arg": r.get("arg"), "features": r["features"]})
     if herr:
         corr.append({"correspondence": "harness error", "detail": herr[0]})
+    xc = [tuple(r["_xcheck"]) for r in results if isinstance(r, dict) and r.get("_xcheck")]
     return {
+        "_xcheck": xc,
         "evaluations": len(results), "distinct_nontrivial": len(keys), "rule": rule,
         "samples": [{"stream": r["stream"], "seed": r["sub"], "features": r["features"][:10]}
                     for r in results if "harness_error" not in r][:3],
